@@ -47,6 +47,41 @@ func ruleTreeAccounting(c *Ctx) {
 	us := P.Method("server/core", "regionTree", "updateStat")
 	isRet := func(x ssa.Instruction) bool { _, ok := x.(*ssa.Return); return ok }
 	c.need(rule, us, "return", isRet, []Ev{&calledEv{name: "+= new size", match: isAdj(token.ADD)}, &calledEv{name: "-= old size", match: isAdj(token.SUB)}}, all, "an in-place replacement adds the new and subtracts the old size")
+	// … the new size is the one of the region that replaces, the old one of the region replaced: identified at the
+	// call in SetRegion (the argument that is SetRegion's own parameter is the new region)
+	setR := P.Method("server/core", "RegionsInfo", "SetRegion")
+	newIdx := -1
+	for _, ci := range callsIn(setR, false, F(us)) {
+		for i, a := range callArgs(ci.Common()) {
+			if len(setR.Params) >= 2 && strip(a) == ssa.Value(setR.Params[1]) {
+				newIdx = i
+			}
+		}
+	}
+	if newIdx >= 0 && newIdx+1 < len(us.Params) {
+		newP := us.Params[newIdx+1]
+		dirOK := true
+		n := 0
+		for _, st := range storesToField(us, total) {
+			b, ok := st.Val.(*ssa.BinOp)
+			if !ok || !isLoadOf(b.Y, size) {
+				continue
+			}
+			n++
+			fromNew := derivesFrom(b.Y, same(newP), 3)
+			if (b.Op == token.ADD) != fromNew {
+				dirOK = false
+			}
+		}
+		c.Check(dirOK && n >= 2, rule, "direction in "+fnName(us), "the size added is the new region's, the size subtracted the replaced region's", P.pos(us.Pos()), "")
+	} else {
+		c.Undec(rule, "call of updateStat in SetRegion", "with SetRegion's region parameter as the new region", P.pos(us.Pos()), "")
+	}
+	// remove deletes what it found only when that is the region it was asked to remove (same id): the item found
+	// by start key may be another region that now covers the key
+	getID := F(P.Method("server/core", "RegionInfo", "GetID"))
+	c.need(rule, rm, "tree.Delete (identity)", instrCallMatcher(bt("Delete")), []Ev{guardRel("found.GetID() == region.GetID()", "==", resultOfCall(getID), resultOfCall(getID))}, all,
+		"the item found under the region's start key is deleted only if it is the same region")
 	// who writes the tree and its size
 	for _, f := range []*types.Var{total, treeF} {
 		for name, accs := range P.writersOf(f) {
@@ -135,6 +170,86 @@ func ruleTreeLookups(c *Ctx) {
 		r, ok := x.(*ssa.Return)
 		return ok && len(r.Results) == 1 && !isNilConst(retVal(r, 0))
 	}, []Ev{guardCall("found.Contains(key)", true, callMatcher(contains))}, all, "find returns an item only if it contains the key")
+	// searchPrev answers only a region that really ends where the current one starts
+	sp := P.Method("server/core", "regionTree", "searchPrev")
+	c.need(rule, sp, "return of a previous region", func(x ssa.Instruction) bool {
+		r, ok := x.(*ssa.Return)
+		return ok && len(r.Results) == 1 && !isNilConst(retVal(r, 0))
+	}, []Ev{guardCall("bytes.Equal(prev end key, current start key)", true, func(cl *ssa.Call) bool {
+		f := cl.Call.StaticCallee()
+		return f != nil && f.Pkg != nil && f.Pkg.Pkg.Path() == "bytes" && f.Name() == "Equal"
+	})}, all, "the previous region is reported only when its end key equals the start key of the region holding the key (no gap)")
+	// getAdjacentRegions: (previous, next) — the first result is filled by the descending walk, the second by the ascending one
+	ga := P.Method("server/core", "regionTree", "getAdjacentRegions")
+	c.saw(fnName(ga))
+	filledBy := map[*ssa.Alloc]string{}
+	for _, b := range ga.Blocks {
+		for _, ins := range b.Instrs {
+			cl, ok := ins.(*ssa.Call)
+			if !ok || cl.Call.StaticCallee() == nil {
+				continue
+			}
+			dir := ""
+			switch {
+			case strings.HasPrefix(cl.Call.StaticCallee().Name(), "Descend"):
+				dir = "descending"
+			case strings.HasPrefix(cl.Call.StaticCallee().Name(), "Ascend"):
+				dir = "ascending"
+			default:
+				continue
+			}
+			for _, a := range cl.Call.Args {
+				mc, ok := a.(*ssa.MakeClosure)
+				if !ok {
+					if ch, isC := a.(*ssa.ChangeType); isC {
+						mc, ok = ch.X.(*ssa.MakeClosure)
+					}
+					if !ok {
+						continue
+					}
+				}
+				cf := mc.Fn.(*ssa.Function)
+				for _, cb := range cf.Blocks {
+					for _, ci := range cb.Instrs {
+						st, ok := ci.(*ssa.Store)
+						if !ok {
+							continue
+						}
+						fv, ok := st.Addr.(*ssa.FreeVar)
+						if !ok {
+							continue
+						}
+						for i, f := range cf.FreeVars {
+							if f == fv {
+								if al, ok := mc.Bindings[i].(*ssa.Alloc); ok {
+									if filledBy[al] != "" && filledBy[al] != dir {
+										filledBy[al] = "both"
+									} else {
+										filledBy[al] = dir
+									}
+								}
+							}
+						}
+					}
+				}
+			}
+		}
+	}
+	okAdj, nRet := true, 0
+	for _, b := range ga.Blocks {
+		r, ok := b.Instrs[len(b.Instrs)-1].(*ssa.Return)
+		if !ok || len(r.Results) != 2 {
+			continue
+		}
+		nRet++
+		for i, want := range []string{"descending", "ascending"} {
+			al := cellOf(r.Results[i])
+			if al == nil || filledBy[al] != want {
+				okAdj = false
+			}
+		}
+	}
+	c.Check(okAdj && nRet > 0, rule, "results of "+fnName(ga), "(previous, next): the first result comes from the descending walk, the second from the ascending walk", P.pos(ga.Pos()), "")
 	// RandomRegion: per-range interval
 	rr := P.Method("server/core", "regionTree", "RandomRegion")
 	loops := loopsOf(rr)
